@@ -11,6 +11,7 @@ import (
 	"log"
 	"os"
 	"path/filepath"
+	"runtime"
 	"sort"
 	"strconv"
 	"strings"
@@ -213,24 +214,46 @@ func c11DispGen(g *hx.Gen) {
 // ---------------------------------------------------------------- c11.setup
 
 var c11Tmp string
+var c11Rel string // c11Tmp relative to the working directory (placeholder @R@)
 var c11Files = map[string]string{}
 
 func c11Setup() error {
 	log.SetOutput(io.Discard)
 	casket.Quiet = true // a start prints "Activating privacy features..." on stdout otherwise (it would end up in a replayed answer)
+	if c11IsWorker() {
+		c11Tmp = os.Getenv(c11WorkerEnv) // the parent's directory; the parent removes it
+		c11SetRel()
+		return nil
+	}
 	d, err := os.MkdirTemp("", "c11-")
 	if err != nil {
 		return err
 	}
 	c11Tmp = d
+	c11SetRel()
 	os.WriteFile(filepath.Join(d, "htpasswd"), []byte("bob:{SHA}W6ph5Mm5Pz8GgiULbPgzG37mj9g=\n"), 0o644)
 	os.WriteFile(filepath.Join(d, "bad.htpasswd"), []byte("no colon here\n"), 0o644)
 	os.WriteFile(filepath.Join(d, "file.txt"), []byte("hello {{.}}\n"), 0o644)
 	os.Mkdir(filepath.Join(d, "dir"), 0o755)
-	return nil
+	return c11ReloadFiles(d)
+}
+
+// basicauth joins the name after htpasswd= to the site root ("." unless a root directive says otherwise), so an
+// absolute name is never found: @R@ names the harness directory relative to the working directory.
+func c11SetRel() {
+	c11Rel = c11Tmp
+	if wd, err := os.Getwd(); err == nil {
+		if r, err := filepath.Rel(wd, c11Tmp); err == nil {
+			c11Rel = r
+		}
+	}
 }
 
 func c11Teardown() {
+	if c11IsWorker() {
+		return
+	}
+	c11KillWorker()
 	if c11Tmp != "" {
 		os.RemoveAll(c11Tmp)
 	}
@@ -271,13 +294,38 @@ func c11RunMode(body []byte, validate bool) (string, string) {
 }
 
 // c11.setup  directive  confighex     (the placeholder @T@ in the config is the harness' temp directory)
+//
+// The harness process hands the case to its worker process (c11iso.go); the worker runs c11SetupLocal.
 func c11SetupEval(f []string) (string, []string) {
 	if len(f) != 2 {
 		return "bad-case", nil
 	}
-	body := []byte(strings.ReplaceAll(hx.UnHS(f[1]), "@T@", c11Tmp))
+	if !c11IsWorker() {
+		return c11Isolated("c11.setup", f, 4)
+	}
+	return c11InWorker(c11SetupLocal, f)
+}
+
+// c11InWorker runs one case in the worker process and wraps answer and tags into the worker's answer line.
+func c11InWorker(eval func([]string) (string, []string), f []string) (out string, tags []string) {
+	before := runtime.NumGoroutine()
+	defer func() {
+		if r := recover(); r != nil { // a panic of the harness' own code
+			out, tags = "PANIC:harness:"+strings.SplitN(fmt.Sprint(r), "\n", 2)[0], []string{"dir=" + f[0]}
+		}
+		c11Settle(before)
+		out, tags = c11WorkerAnswer(out, tags), nil
+	}()
+	return eval(f)
+}
+
+func c11SetupLocal(f []string) (string, []string) {
+	body := []byte(strings.ReplaceAll(strings.ReplaceAll(hx.UnHS(f[1]), "@T@", c11Tmp), "@R@", c11Rel))
 	v, vmsg := c11RunMode(body, true)
-	s, smsg := c11RunMode(body, false)
+	s, smsg := "skipped", ""
+	if v != "TIMEOUT" { // the hung validation still holds whatever it holds: a start now would only tell the same story
+		s, smsg = c11RunMode(body, false)
+	}
 	tags := []string{"dir=" + f[0], "validate=" + v}
 	out := "total"
 	switch {
@@ -298,7 +346,7 @@ func c11SetupEval(f []string) (string, []string) {
 	if strings.Contains(string(body), "{\n") {
 		tags = append(tags, "sub-block")
 	}
-	return strings.ReplaceAll(out, c11Tmp, "@T@"), tags
+	return strings.ReplaceAll(strings.ReplaceAll(out, c11Rel, "@R@"), c11Tmp, "@T@"), tags
 }
 
 // the package directory of each directive (the anchors of C11)
@@ -504,7 +552,7 @@ func c11Vocab(repo, pkg string) (own, helper []string) {
 var c11Core = []string{"a", "/", "/p", "0", "1", "-1", "404", "5s", "off", "*", "@T@/file.txt", "@T@/nope", "localhost:1", "\"\"", "x=y", "{path}"}
 var c11More = []string{"99999999999999999999", "9223372036854775808", "1.5", "1KB", "-1MB", "10h", "-1s", "1x", "abc", "on", "http://localhost:1", "https://127.0.0.1:1",
 	"unix:/tmp/none.sock", ":", "::", "[::1]:80", "a,b", "a|b", "(", "[", "**", "\\", "%", "{{", "{{.}", "{", "}", "\"q arg\"", "\"multi\nline\"", "é", "htpasswd=@T@/htpasswd",
-	"htpasswd=@T@/nope", "htpasswd=@T@/bad.htpasswd", "htpasswd=", "@T@/dir", "@T@", ".", "..", "self_signed", "max", "tls1.2", "tls1.3", "p256", "rsa2048", "localhost:1-3", "localhost:3-1",
+	"htpasswd=@R@/htpasswd", "htpasswd=@R@/nope", "htpasswd=@R@/bad.htpasswd", "htpasswd=", "@T@/dir", "@T@", ".", "..", "self_signed", "max", "tls1.2", "tls1.3", "p256", "rsa2048", "localhost:1-3", "localhost:3-1",
 	"localhost:a-b", "srv://a", "srv+https://a", "{$CV_NOPE}", "+X", "-X", "X-H", "300", "301", "999", "0.0.0.0/0", "1.2.3.4/33", "::/0", "10", "php", "startup", "shutdown", "{>X}", "!"}
 
 func c11Line(toks []string) string { return strings.Join(toks, " ") }
